@@ -1,29 +1,36 @@
-"""T1 for C16 — the predefined site networks as Lean data (lean/AcnModel/Gen/Sites.lean).
+"""T1 for C16 — the predefined site networks as Lean data (lean/AcnModel/Gen/Sites.lean, Gen/SimpleAcn.lean).
+
+Everything the Lean side reasons about is a CANONICAL function of the networks the factories BUILD (never of how the
+Python source spells them): a behaviour-preserving rewrite of a site file regenerates byte-identical data.
 
 `gen_sites()` (called by translate.py on every check run)
 
-  * EXECUTES the site factories of the working tree (`ACN_REPO`): caltech_acn, jpl_acn,
-    office001_acn, with basic and real EVSE types, the default capacities and two other
-    capacity settings each, and dumps station ids, phase angles, voltages, constraint names, the
-    constraint matrix (sparse rows of exact rationals of the doubles) and the limits (exact
-    rationals of the doubles);
-  * PARSES the limit formulas from the AST of the site files (a small abstract interpreter over the
-    factory body: assignments, `for p in "abc"`, calls of local helper functions, `str.format`
-    names, `network.add_constraint(cur, limit, name=…)`) into monomials of one capacity parameter,
-    kept as the source's left-to-right operation chain (`cap * 1000 / 3 / 120 [* sqrt 3]`) so the
-    model can both re-evaluate it in doubles and reason about it for EVERY capacity;
-  * groups the rows by their names into transformers (Secondary/Primary A,B,C), panel line triples
-    (`… I_a/b/c`) and pods (everything else).  The grouping is NOT trusted: `Acn.Sites.topoOk`
-    re-derives every row from the EVSE sets and the theorem `site_structure_*` checks it by
-    `decide +kernel`;
-  * EXECUTES every factory (and the deprecated wrapper) with NO arguments at all and records, next to the
-    limits the object then carries, the defaults of its signature (`defaultInsts`): the theorem
-    `site_default_ratings` pins them to the documented ratings.
+  * EXECUTES the site factories of the working tree (`ACN_REPO`): caltech_acn, jpl_acn, office001_acn, with basic and real
+    EVSE types, the default capacities and two other capacity settings each, and dumps station ids, phase angles, voltages,
+    constraint names, the constraint matrix (sparse rows of exact rationals of the doubles) and the limits (exact rationals
+    of the doubles);
+  * FITS the dependence of every limit on the capacity arguments by PROBING (`fit_formulas`): the factory is executed with
+    each capacity set to 1, 8 and 1000 kW in turn; a limit that never moves is a literal, a limit that moves with exactly
+    one capacity and is proportional to it is `cap · N/D` or `cap · N/D · √3` with the coefficient identified as a small
+    rational (continued fractions; 2⁻⁴⁴ relative); anything else is `.unknown`.  The result is written in ONE canonical
+    form (`.ofCap k [.mul N D]` / `[.mul N D, .mulSqrt3]`), so the model can re-evaluate it and the theorems reason about
+    it for EVERY capacity; `instOk` (kernel) re-checks every executed instance against it;
+  * groups the rows by their names into transformers (Secondary/Primary A,B,C), panel line triples (`… I_a/b/c`) and pods
+    (everything else).  The grouping is NOT trusted: `Acn.Sites.topoOk` re-derives every row from the EVSE sets and the
+    theorem `site_structure_*` checks it by `decide +kernel`;
+  * EXECUTES every factory (and the deprecated wrapper) with NO arguments at all and records, next to the limits the
+    object then carries, the defaults of its live signature (`defaultInsts`): `site_default_ratings` pins them to the
+    documented ratings;
+  * the AST of the site files is consulted for ONE thing only, only as a hint and in a file of its own
+    (`gen_sites_src()` -> Gen/SitesSrc.lean, imported by the driver and by no theorem): the left-to-right operation chain
+    of a limit formula (`cap * 1000 / 3 / 120 [* sqrt 3]`) lets the driver reproduce the doubles of the source bit for
+    bit.  A chain is used only when it denotes the same monomial as the fit (checked here AND again by the driver); where
+    the reader does not follow the source (table-driven loops, hoisted constants, …) the entry silently falls back to
+    the canonical form (a comment in the generated file says so) — no build depends on it.
 
-`gen_simple()` (-> lean/AcnModel/Gen/SimpleAcn.lean) does the same for `simple_acn` (auto_acn.py): the
-expressions passed to `register_evse` / `add_constraint` are read from the AST as expression trees over the
-two parameters `aggregate_cap` and `voltage` (`(aggregate_cap / voltage) * 1000`), the signature defaults are
-recorded, and a fixed list of calls is executed and dumped.
+`gen_simple()` (-> lean/AcnModel/Gen/SimpleAcn.lean) does the same for `simple_acn` (auto_acn.py): a fixed list of calls
+is executed and dumped, the signature defaults are recorded, and the limit of the aggregate constraint is fitted by
+probing capacity × voltage to the canonical monomial `N/D · cap^±1 · voltage^±1` (here `1000 · cap / voltage`).
 """
 from __future__ import annotations
 
@@ -325,8 +332,8 @@ inductive Op where
   | mul (n : Int) (d : Nat) | div (n : Int) (d : Nat) | mulSqrt3 | divSqrt3
   deriving DecidableEq, Repr
 
-/-- limit of a constraint as written in the site file: a literal, or a chain applied to the
-    capacity parameter number `cap`; `unknown` when the translator could not read it -/
+/-- limit of a constraint: a literal, or a chain applied to the capacity parameter number `cap`
+    (canonical: `[.mul N D]` or `[.mul N D, .mulSqrt3]`); `unknown` when it is not of that class -/
 inductive Lim where
   | const (n : Int) (d : Nat) | ofCap (cap : Nat) (ops : List Op) | unknown
   deriving DecidableEq, Repr
@@ -358,7 +365,8 @@ structure Pod where
   evses : List Nat
   deriving DecidableEq, Repr
 
-/-- what is the same for every capacity and EVSE type of one site.  Rationals are (num, den). -/
+/-- what is the same for every capacity and EVSE type of one site.  Rationals are (num, den).
+    `lims`: the limits as canonical monomials fitted to the executed factory. -/
 structure Topo where
   site : String
   nominalV : Int × Nat
@@ -389,6 +397,7 @@ structure Inst where
 
 
 def _topo_of(site, cap_names, net, formulas, voltage):
+    fit, src = formulas
     import numpy as np
     names = list(net.constraint_index)
     M = np.array(net.constraint_matrix, dtype=float)
@@ -429,7 +438,8 @@ def _topo_of(site, cap_names, net, formulas, voltage):
         ev = supp([i for i in ln if i < miss])
         ps.append(f'{{ name := "{nm}", lines := {{ evses := {_nats(ev)}, a := {ln[0]}, b := {ln[1]}, c := {ln[2]} }} }}')
     pd_ = [f'{{ name := "{nm}", row := {i}, evses := {_nats(supp([i]))} }}' for nm, i in pods]
-    lims = [_lim(formulas.get(nm, UNKNOWN), cap_names) for nm in names]
+    lims = [_lim(fit.get(nm, UNKNOWN), cap_names) for nm in names]
+    src_lims = "[" + ", ".join(_lim(src.get(nm, fit.get(nm, UNKNOWN)), cap_names) for nm in names) + "]"
     sep = ",\n    "
     return (
         "{ site := \"%s\",\n  nominalV := %s,\n  capNames := %s,\n  stations := %s,\n  angles := [%s],\n  voltages := [%s],\n"
@@ -437,7 +447,87 @@ def _topo_of(site, cap_names, net, formulas, voltage):
         % (site, _pair(voltage), _strs(cap_names), _strs(net.station_ids),
            ", ".join(_pair(a) for a in net._phase_angles), ", ".join(_pair(v) for v in net._voltages),
            _strs(names), sep.join(rows), ", ".join(lims), sep.join(xs),
-           (("\n    " + sep.join(ps)) if ps else ""), (("\n    " + sep.join(pd_)) if pd_ else "")))
+           (("\n    " + sep.join(ps)) if ps else ""), (("\n    " + sep.join(pd_)) if pd_ else ""))), src_lims
+
+
+PROBES = (1.0, 8.0, 1000.0)       # exact doubles; 1.0 makes the limit equal the coefficient as the source computes it
+_REL = Fraction(1, 2 ** 44)
+
+
+def _small_rational(x: float):
+    """the rational with denominator ≤ 10⁶ that `x` is (2⁻⁴⁴ relative), or None"""
+    if x != x or abs(x) == float("inf"):
+        return None
+    fx = Fraction(x)
+    r = fx.limit_denominator(10 ** 6)
+    return r if abs(fx - r) <= _REL * abs(fx) else None
+
+
+def fit_formulas(call, cap_names, base):
+    """{constraint name: Mono | UNKNOWN} for the networks `call(caps)` builds — from their limits alone.
+
+    `call(caps)` executes the factory with the capacities `caps` (everything else fixed).  Canonical result: a literal
+    (`Mono(q)`), or `cap_k · N/D [· √3]` (`ops = [("mul", N/D)] (+ [("mulSqrt3", None)])`)."""
+    import math
+    base = [float(b) for b in base]
+    net0 = call(base)
+    names = list(net0.constraint_index)
+    L0 = [float(x) for x in net0.magnitudes]
+    moved = {nm: {} for nm in names}        # name -> {k: {probe: limit}}
+    for k in range(len(cap_names)):
+        for p in PROBES:
+            caps = list(base)
+            caps[k] = p
+            net = call(caps)
+            if list(net.constraint_index) != names:
+                raise ValueError("the constraint set depends on the capacity arguments")
+            for nm, l0, l in zip(names, L0, (float(x) for x in net.magnitudes)):
+                moved[nm].setdefault(k, {})[p] = l
+    out = {}
+    for nm, l0 in zip(names, L0):
+        ks = [k for k, d in moved[nm].items() if any(v != l0 for v in d.values())]
+        if not ks:
+            r = _small_rational(l0)
+            out[nm] = Mono(r if r is not None else Fraction(l0)) if l0 == l0 and abs(l0) != float("inf") else UNKNOWN
+            continue
+        if len(ks) != 1:
+            out[nm] = UNKNOWN       # depends on two capacities
+            continue
+        k = ks[0]
+        d = moved[nm][k]
+        q = d[1.0]
+        pts = list(d.items()) + [(base[k], l0)]
+        if not all(abs(v - q * p) <= 1e-12 * abs(q * p) for p, v in pts) or q == 0:
+            out[nm] = UNKNOWN       # not proportional to the capacity
+            continue
+        r = _small_rational(q)
+        if r is not None:
+            out[nm] = Mono(r, cap_names[k], 0, [("mul", r)])
+            continue
+        r = _small_rational(q / math.sqrt(3.0))
+        if r is not None and abs(float(r) * math.sqrt(3.0) - q) <= 1e-13 * abs(q):
+            out[nm] = Mono(r, cap_names[k], 1, [("mul", r), ("mulSqrt3", None)])
+            continue
+        out[nm] = UNKNOWN
+    return out
+
+
+def source_chains(fname, factory, cap_names, fit):
+    """AST hint: {name: Mono with the source's operation chain} for the constraints whose chain the reader follows AND
+    that denote the monomial of the fit; (chains, note)"""
+    try:
+        found = parse_formulas(fname, factory, cap_names)
+    except Exception as e:  # noqa: BLE001 — unfamiliar source: no hint
+        return {}, f"{factory}: source not followed ({type(e).__name__}); srcLims = lims"
+    ok = {}
+    for nm, f in fit.items():
+        m = found.get(nm)
+        if isinstance(m, Mono) and isinstance(f, Mono) and m.var == f.var and m.s3 == f.s3 and m.coef == f.coef \
+                and (m.var is None or all(c is None or c != 0 for _, c in m.ops)):
+            ok[nm] = m
+    miss = [nm for nm, f in fit.items() if isinstance(f, Mono) and f.var is not None and nm not in ok]
+    note = None if not miss else f"{factory}: operation order of the source not read for {len(miss)} limit(s) (e.g. {miss[0]!r}); srcLims = lims there"
+    return ok, note
 
 
 def _is_num(x):
@@ -454,15 +544,29 @@ def gen_sites() -> str:
         sys.path.insert(0, REPO)
     out = [HEADER]
     topos = []       # distinct topology texts
+    topo_src = []    # per topology: the limits in the source's operation order (AST hint; Gen/SitesSrc.lean)
     topo_site = []
     insts = []
     import contextlib
     import io
 
+    fcache = {}
+    src_notes = []
+
+    def formulas_of(site, fname, factory, cap_names, base, call):
+        if factory not in fcache:
+            fit = fit_formulas(call, cap_names, base)
+            src, note = source_chains(fname, factory, cap_names, fit)
+            if note:
+                src_notes.append(note.replace("-/", "- /"))
+            fcache[factory] = (fit, src)
+        return fcache[factory]
+
     def record(site, factory, cap_names, formulas, net, basic, caps, voltage):
-        t = _topo_of(site, cap_names, net, formulas, voltage)
+        t, src_lims = _topo_of(site, cap_names, net, formulas, voltage)
         if t not in topos:
             topos.append(t)
+            topo_src.append(src_lims)
             topo_site.append(f"{site} at {voltage} V")
         k = topos.index(t)
         mx = sorted({Fraction(float(x)) for x in net.max_pilot_signals})
@@ -479,7 +583,8 @@ def gen_sites() -> str:
         for nominal_pass in (True, False):
           for site, fname, factory, cap_names, settings in SITES:
             mod = importlib.import_module("acnportal.acnsim.network.sites." + fname[:-3])
-            formulas = parse_formulas(fname, factory, cap_names)
+            formulas = formulas_of(site, fname, factory, cap_names, settings[0][0],
+                                   lambda caps, f=getattr(mod, factory), cn=cap_names: f(basic_evse=True, **dict(zip(cn, caps))))
             for caps, voltage in settings:
                 if (voltage == 208) != nominal_pass:
                     continue
@@ -490,7 +595,8 @@ def gen_sites() -> str:
             mod = importlib.import_module("acnportal.acnsim.network.sites." + fname[:-3])
             if not hasattr(mod, factory):
                 continue
-            formulas = parse_formulas(fname, factory, cap_names)
+            formulas = formulas_of(site, fname, factory, cap_names, [150],
+                                   lambda caps, f=getattr(mod, factory), cn=cap_names: f(basic_evse=True, **dict(zip(cn, caps))))
             for how, basic, caps, voltage in calls:
                 if how == "kw":
                     net = getattr(mod, factory)(basic_evse=basic, voltage=voltage, **dict(zip(cap_names, caps)))
@@ -514,12 +620,15 @@ def gen_sites() -> str:
                 basic, voltage = sig["basic_evse"], sig["voltage"]
                 if not all(_is_num(x) for x in caps + [voltage]) or not isinstance(basic, bool):
                     raise ValueError(f"defaults of {factory} are not plain numbers / a bool: {sig}")
-                formulas = parse_formulas(fname, factory, cap_names)
+                formulas = formulas_of(site, fname, factory, cap_names, caps,
+                                       lambda cs, f=fn, cn=cap_names: f(basic_evse=True, **dict(zip(cn, cs))))
                 record(site, factory, cap_names, formulas, fn(), basic, caps, voltage)
             except Exception as e:  # noqa: BLE001 — the obligation `site_default_ratings` then misses this factory
                 default_notes.append(f"{factory}() not recorded: {type(e).__name__}: {e}".replace("-/", "- /"))
     default_insts = insts[n_explicit:]
     del insts[n_explicit:]
+    global _LAST_SRC
+    _LAST_SRC = (list(topo_src), list(src_notes))
     for k, t in enumerate(topos):
         out.append(f"/-- topology {k}: {topo_site[k]} -/\ndef topo{k} : Topo :=\n{t}\n")
     out.append("def topos : List Topo := [" + ", ".join(f"topo{k}" for k in range(len(topos))) + "]\n")
@@ -529,6 +638,27 @@ def gen_sites() -> str:
                "def defaultInsts : List Inst := [\n  " + ",\n  ".join(default_insts) + "]\n")
     out.append("end Acn.Gen.Sites")
     return "\n".join(out) + "\n"
+
+
+_LAST_SRC = None
+
+
+def gen_sites_src() -> str:
+    """lean/AcnModel/Gen/SitesSrc.lean — the AST HINT, read by the driver only (never by a theorem): per topology of
+    Gen/Sites.lean the limits as operation chains in the source's left-to-right order, so that the driver reproduces the
+    doubles of the source bit for bit.  Never fails: where the reader does not follow the source the entry is the canonical
+    form itself, and when nothing can be produced the list is empty (the driver then evaluates the canonical forms)."""
+    head = ("/- GENERATED by harness/translate_sites.py (gen_sites_src) — AST hint for the driver; do not edit. -/\n"
+            "import AcnModel.Gen.Sites\nnamespace Acn.Gen.SitesSrc\nopen Acn.Gen.Sites\n\n")
+    try:
+        if _LAST_SRC is None:
+            gen_sites()
+        chains, notes = _LAST_SRC
+        body = "".join(f"/- {n} -/\n" for n in notes)
+        body += "def srcLims : List (List Lim) := [\n  " + ",\n  ".join(chains) + "]\n"
+    except Exception as e:  # noqa: BLE001
+        body = f"/- no hint: {type(e).__name__}: {e} -/\n".replace("-/ -/", "- / -/") + "def srcLims : List (List Lim) := []\n"
+    return head + body + "\nend Acn.Gen.SitesSrc\n"
 
 
 # ----------------------------------------------------------------------------- simple_acn (auto_acn.py)
@@ -549,11 +679,17 @@ SIMPLE_CALLS = [
 SIMPLE_HEADER = """/- GENERATED by harness/translate_sites.py (gen_simple) from acnportal/acnsim/network/sites/auto_acn.py — do not edit. -/
 namespace Acn.Gen.SimpleAcn
 
-/-- an arithmetic expression over the two numeric parameters of `simple_acn`, as written in the source
-    (`unknown`: something the translator cannot read) -/
-inductive SExpr where
-  | cap | voltage | lit (n : Int) (d : Nat)
-  | mul (a b : SExpr) | div (a b : SExpr) | add (a b : SExpr) | sub (a b : SExpr) | neg (a : SExpr) | unknown
+/-- how a limit depends on one numeric argument: not at all, proportionally, inversely proportionally -/
+inductive Dep where
+  | none | times | over
+  deriving DecidableEq, Repr
+
+/-- the canonical monomial `n/d · aggregate_cap^(0|±1) · voltage^(0|±1)` fitted to the executed factory -/
+structure Mono where
+  n : Int
+  d : Nat
+  cap : Dep
+  voltage : Dep
   deriving DecidableEq, Repr
 
 /-- one executed call `simple_acn(ids, …)`; `none` / "" = the argument was NOT passed (signature default) -/
@@ -576,97 +712,35 @@ structure Inst where
 """
 
 
-class _SimpleAst:
-    """reads `simple_acn`: the arguments of the one `register_evse` call in the loop over `station_ids` and of the
-    `add_constraint` call, with local names resolved through the straight-line assignments before them"""
+def _fit_simple(call):
+    """Lean text of the canonical monomial of the (single) limit of `call(cap, voltage)`"""
+    cs, vs = (1.0, 8.0, 1000.0), (1.0, 8.0, 250.0)
+    L = {}
+    for c in cs:
+        for v in vs:
+            net = call(c, v)
+            if len(net.magnitudes) != 1:
+                raise ValueError(f"{len(net.magnitudes)} constraints")
+            L[(c, v)] = float(net.magnitudes[0])
+    q = L[(1.0, 1.0)]
 
-    def __init__(self, src, fn):
-        self.src = src
-        self.fn = fn
-        self.env = {}
-        self.reg = []     # (voltage expr, angle expr, loops over station_ids?, evse type is the parameter?)
-        self.cons = []    # (limit expr, name, covers station_ids?)
-        self.station_lists = {"station_ids"}
-
-    def ex(self, node):
-        if isinstance(node, ast.Constant) and isinstance(node.value, (int, float)) and not isinstance(node.value, bool):
-            txt = ast.get_source_segment(self.src, node) or repr(node.value)
-            try:
-                fr = Fraction(txt.replace("_", ""))
-            except Exception:
-                fr = Fraction(node.value)
-            return f"(.lit {fr.numerator} {fr.denominator})" if fr >= 0 else f"(.neg (.lit {-fr.numerator} {fr.denominator}))"
-        if isinstance(node, ast.Name):
-            if node.id in self.env:
-                return self.env[node.id]
-            if node.id == "aggregate_cap":
-                return ".cap"
-            if node.id == "voltage":
-                return ".voltage"
-            return ".unknown"
-        if isinstance(node, ast.BinOp):
-            op = {ast.Mult: "mul", ast.Div: "div", ast.Add: "add", ast.Sub: "sub"}.get(type(node.op))
-            if op is None:
-                return ".unknown"
-            return f"(.{op} {self.ex(node.left)} {self.ex(node.right)})"
-        if isinstance(node, ast.UnaryOp) and isinstance(node.op, ast.USub):
-            return f"(.neg {self.ex(node.operand)})"
-        if isinstance(node, ast.UnaryOp) and isinstance(node.op, ast.UAdd):
-            return self.ex(node.operand)
-        return ".unknown"
-
-    def _args(self, call, names):
-        got = {}
-        for i, a in enumerate(call.args):
-            if i < len(names):
-                got[names[i]] = a
-        for k in call.keywords:
-            if k.arg in names:
-                got[k.arg] = k.value
-        return got
-
-    def walk(self, body, loop_over=None):
-        for st in body:
-            if isinstance(st, ast.Assign) and len(st.targets) == 1 and isinstance(st.targets[0], ast.Name):
-                v = st.value
-                name = st.targets[0].id
-                if isinstance(v, ast.Call) and isinstance(v.func, ast.Name) and v.func.id == "Current" and len(v.args) == 1 \
-                        and isinstance(v.args[0], ast.Name) and v.args[0].id in self.station_lists:
-                    self.env[name] = "<current of all stations>"
-                elif isinstance(v, ast.Name) and v.id in self.station_lists:
-                    self.station_lists.add(name)
-                else:
-                    self.env[name] = self.ex(v)
-            elif isinstance(st, ast.For) and isinstance(st.target, ast.Name):
-                it = st.iter.id if isinstance(st.iter, ast.Name) else None
-                self.walk(st.body, loop_over=(st.target.id, it in self.station_lists))
-            elif isinstance(st, ast.Expr) and isinstance(st.value, ast.Call) and isinstance(st.value.func, ast.Attribute):
-                call = st.value
-                if call.func.attr == "register_evse":
-                    a = self._args(call, ["evse", "voltage", "phase_angle"])
-                    ev = a.get("evse")
-                    typed = (isinstance(ev, ast.Call) and isinstance(ev.func, ast.Name) and ev.func.id == "get_evse_by_type"
-                             and len(ev.args) == 2 and isinstance(ev.args[0], ast.Name) and loop_over is not None
-                             and ev.args[0].id == loop_over[0] and isinstance(ev.args[1], ast.Name) and ev.args[1].id == "evse_type")
-                    self.reg.append((self.ex(a["voltage"]) if "voltage" in a else ".unknown",
-                                     self.ex(a["phase_angle"]) if "phase_angle" in a else ".unknown",
-                                     bool(loop_over and loop_over[1]), typed))
-                elif call.func.attr == "add_constraint":
-                    a = self._args(call, ["current", "limit", "name"])
-                    cur = a.get("current")
-                    covers = isinstance(cur, ast.Name) and self.env.get(cur.id) == "<current of all stations>"
-                    nm = a.get("name")
-                    self.cons.append((self.ex(a["limit"]) if "limit" in a else ".unknown",
-                                      nm.value if isinstance(nm, ast.Constant) and isinstance(nm.value, str) else None, covers))
-
-
-def _simple_ast():
-    src = open(os.path.join(REPO, SITES_DIR, SIMPLE_FILE)).read()
-    tree = ast.parse(src)
-    fn = next(st for st in tree.body if isinstance(st, ast.FunctionDef) and st.name == "simple_acn")
-    rd = _SimpleAst(src, fn)
-    rd.walk(fn.body)
-    return rd
+    def dep(ratio):
+        for name, want in (("none", 1.0), ("times", 8.0), ("over", 0.125)):
+            if abs(ratio - want) <= 1e-12 * want:
+                return name
+        raise ValueError(f"ratio {ratio!r} for a factor 8")
+    if q == 0 or q != q:
+        raise ValueError(f"limit {q!r} at (1, 1)")
+    a, b = dep(L[(8.0, 1.0)] / q), dep(L[(1.0, 8.0)] / q)
+    ex = {"none": 0, "times": 1, "over": -1}
+    for (c, v), l in L.items():
+        want = q * c ** ex[a] * v ** ex[b]
+        if not abs(l - want) <= 1e-12 * abs(want):
+            raise ValueError(f"limit({c}, {v}) = {l!r}, monomial gives {want!r}")
+    r = _small_rational(q)
+    if r is None:
+        raise ValueError(f"coefficient {q!r} is not a small rational")
+    return f"some {{ n := {r.numerator}, d := {r.denominator}, cap := .{a}, voltage := .{b} }}"
 
 
 def _opt_pair(x):
@@ -680,25 +754,20 @@ def gen_simple() -> str:
     import io
     import numpy as np
     out = [SIMPLE_HEADER]
-    # ---- AST: what the body passes to register_evse / add_constraint
-    rd = _simple_ast()
-    ok_shape = len(rd.reg) == 1 and len(rd.cons) == 1 and rd.reg[0][2] and rd.reg[0][3] and rd.cons[0][2]
-    if ok_shape:
-        volt_e, ang_e = rd.reg[0][0], rd.reg[0][1]
-        lim_e, cname = rd.cons[0][0], rd.cons[0][1]
-    else:
-        volt_e = ang_e = lim_e = ".unknown"
-        cname = None
-    out.append("/-- the body of `simple_acn` has the documented shape: ONE `register_evse(get_evse_by_type(id, evse_type), …)` in a loop over\n"
-               "    `station_ids`, ONE `add_constraint(Current(station_ids), …)` -/\n"
-               f"def bodyShapeOk : Bool := {'true' if ok_shape else 'false'}\n")
-    out.append(f"/-- second argument of `register_evse` -/\ndef voltageExpr : SExpr := {volt_e}\n")
-    out.append(f"/-- third argument of `register_evse` (phase angle, degrees) -/\ndef angleExpr : SExpr := {ang_e}\n")
-    out.append(f"/-- `limit` argument of `add_constraint`, local names resolved -/\ndef limitExpr : SExpr := {lim_e}\n")
-    out.append("def constraintName : String := " + (_strs([cname])[1:-1] if cname is not None else '""') + "\n")
-    # ---- signature defaults (live function)
     mod = importlib.import_module("acnportal.acnsim.network.sites." + SIMPLE_FILE[:-3])
     fn = mod.simple_acn
+    # ---- the limit of the one constraint as a function of (aggregate_cap, voltage): fitted by probing
+    mono, why = "none", ""
+    try:
+        with warnings.catch_warnings(), contextlib.redirect_stdout(io.StringIO()):
+            warnings.simplefilter("ignore")
+            mono = _fit_simple(lambda c, v: fn(["p", "q", "r"], voltage=v, aggregate_cap=c))
+    except Exception as e:  # noqa: BLE001 — `simple_formula` then fails: the limit is not of the documented class
+        why = f" ({type(e).__name__}: {e})".replace("-/", "- /")
+    out.append("/-- limit of the aggregate constraint, fitted to `simple_acn(ids, voltage=v, aggregate_cap=c).magnitudes` at\n"
+               f"    c, v ∈ {{1, 8, 1000}} × {{1, 8, 250}}; `none`: not a monomial of that class{why} -/\n"
+               f"def limitMono : Option Mono := {mono}\n")
+    # ---- signature defaults (live function)
     sig = _signature_defaults(fn)
     dv, dc, dt = sig.get("voltage"), sig.get("aggregate_cap"), sig.get("evse_type")
     out.append("/-- defaults of the live signature (`none`: not a plain number) -/")
@@ -746,4 +815,4 @@ def gen_simple() -> str:
 
 
 if __name__ == "__main__":
-    sys.stdout.write(gen_simple() if "--simple" in sys.argv else gen_sites())
+    sys.stdout.write(gen_simple() if "--simple" in sys.argv else gen_sites_src() if "--src" in sys.argv else gen_sites())
